@@ -43,6 +43,18 @@ def main():
     ap.add_argument('--no-build', action='store_true')
     a = ap.parse_args()
     seed = int(os.environ.get('VERIF_SEED', '20260930'))
+    if a.replay:
+        # a replay file records the seed and tier of the run that produced it: all random choices derive from that one seed, so
+        # re-running with it reproduces the same cases (and, on the same tree, the same first violation, which is printed first)
+        import json
+        rp = json.load(open(a.replay))
+        seed, a.tier = int(rp.get('seed', seed)), rp.get('tier', a.tier)
+        first = (rp.get('violations') or rp.get('mismatches') or [None])[0]
+        print('replaying %s: seed=%d tier=%s' % (a.replay, seed, a.tier))
+        if first:
+            print('recorded: %s' % json.dumps(first)[:1500])
+        for n_ in rp.get('no_longer_checks', []):
+            print('recorded (no longer checks): %s' % str(n_)[:600])
     sys.path.insert(0, VERIF)
     os.chdir(VERIF)
     import warnings
@@ -92,14 +104,11 @@ def main():
     if child == 0:
         rc = 1
         try:
-            if a.replay:
-                rc = mod.replay(ctx, a.replay)
-            else:
-                try:
-                    mod.run(ctx)
-                except Exception as e:  # harness failure is never silently a pass
-                    import traceback
-                    ctx.obligation('harness', False, 'exception in check: %s\n%s' % (e, traceback.format_exc()[-1500:]))
+            try:
+                mod.run(ctx)
+            except Exception as e:  # harness failure is never silently a pass
+                import traceback
+                ctx.obligation('harness', False, 'exception in check: %s\n%s' % (e, traceback.format_exc()[-1500:]))
             rc = ctx.finish(rule=getattr(mod, 'RULE', ''), trusted_base=TRUSTED + getattr(mod, 'TRUSTED', []),
                             assumptions=getattr(mod, 'ASSUMPTIONS', []),
                             checker_cmd='cd /verif && ./check.py %s --tier %s  (coq_makefile+make full .vo build; coqc props/%s.v)' % (a.pid, a.tier, a.pid))
